@@ -50,11 +50,13 @@ def cases_file(cases):
 
 def cert_case(c, reuse, strip):
     caps = cg.coq_list([1] * (len(c.lines) + 3), cg.coq_N)
-    return f'cert_case {cg.coq_netlist(c)} {caps} 1%N {"true" if reuse else "false"} {"true" if strip else "false"}'
+    args = f'{cg.coq_netlist(c)} {caps} 1%N {"true" if reuse else "false"} {"true" if strip else "false"}'
+    return (f'(cert_case {args} && match build {args} with Some so => ssa_topo (so_stems so) (so_nlines so + 1) (so_ops so) '
+            f'| None => false end)')
 
 
 def cert_file(cases):
-    hdr = HEADER.replace('Model.Corr.', 'Model.Corr Model.SimOpsCert.')
+    hdr = HEADER.replace('Model.Corr.', 'Model.Corr Model.SimOpsCert Proofs.AllocProofs.')
     return hdr + 'Definition results : list bool := [\n ' + ';\n '.join(cases) + '].\nEval vm_compute in (failing results).\n'
 
 
@@ -65,6 +67,6 @@ def run_certs(ck, circuits, label):
     outs = ck.coq_eval_many('cert', [cert_file(ch) for ch in chunks], jobs=12)
     bad = [ci * 40 + j for ci, (ok, out) in enumerate(outs) for j in ((cg.parse_nat_list(out) if ok else None) or [])]
     ran = all(ok and cg.parse_nat_list(out) is not None for ok, out in outs)
-    ck.obligation(f'{label}: certificate (ownership simulation of the memory map + level independence) holds for the model\'s SimOps '
+    ck.obligation(f'{label}: certificates (ownership simulation of the memory map, level independence, SSA-topological op list) hold for the model\'s SimOps '
                   f'result on {len(cases)} circuits (unit capacities)', ran and not bad, 'correspondence', f'failing circuits {bad[:8]}')
     return bad
